@@ -321,6 +321,19 @@ class Int16Translator(Translator):
 
     # ------------------------------------------------------------------ statements
     def hook_stmt(self, s, rest, env, ctx, k):
+        # exit-buffer mode: the function yields the contents of self._buffer at the moment the method is left,
+        # whether by `return self` or by `raise error.BASICError(..)` (what the caller's variable then holds)
+        if getattr(self, 'exit_mode', False):
+            if isinstance(s, ast.Raise):
+                exc = s.exc
+                if (isinstance(exc, ast.Call) and self.dotted(exc.func) in ('error.BASICError', 'BASICError')
+                        and 'self._buffer' in env):
+                    return ctx.ret(self, env['self._buffer'], env)
+                refuse(s, 'exit-buffer mode: unsupported raise')
+            for n in ast.walk(s):
+                if isinstance(n, ast.Call) and isinstance(n.func, ast.Attribute) and n.func.attr in self.methods \
+                        and self.methods[n.func.attr].monadic:
+                    refuse(s, 'exit-buffer mode: call of a raising method')
         # isinstance(rhs, Float) branch of a method whose rhs is an Integer: dead
         if (isinstance(s, ast.If) and isinstance(s.test, ast.Call) and isinstance(s.test.func, ast.Name)
                 and s.test.func.id == 'isinstance'):
@@ -396,8 +409,15 @@ class Int16Translator(Translator):
                     return True     # possibly dynamic dispatch
         return False
 
-    def method(self, cls, name, types=None, ret=BUF):
+    def method(self, cls, name, types=None, ret=BUF, exit_mode=False):
         """Translate method cls.name; `self._buffer` is the leading parameter."""
+        self.exit_mode = exit_mode
+        try:
+            return self._method(cls, name, types, ret, exit_mode)
+        finally:
+            self.exit_mode = False
+
+    def _method(self, cls, name, types, ret, exit_mode):
         qual = '%s.%s' % (cls, name)
         fd = self.m.find(qual)
         if not isinstance(fd, ast.FunctionDef):
@@ -414,12 +434,14 @@ class Int16Translator(Translator):
             pt[a.arg] = ty
             params.append((a.arg, ty))
         coqname = self.prefix + name if cls == 'Integer' else self.prefix + cls + '_' + name
+        if exit_mode:
+            coqname += '_exitbuf'
         mon = self.needs_monadic(fd)
         f = self.function(qual, coqname=coqname, param_types=pt, state=['self._buffer'], force_monadic=mon)
         if f.ret_ty != ret:
             refuse(fd, '%s returns %s, expected %s' % (qual, f.ret_ty, ret))
         m = Meth(coqname, fd, params, f.ret_ty, f.monadic, True)
-        if cls == 'Integer':
+        if cls == 'Integer' and not exit_mode:
             self.methods[name] = m
         return m
 
@@ -485,6 +507,8 @@ def generate(repo):
     t.method('Integer', 'ineg')
     t.method('Integer', 'iabs')
     t.method('Integer', 'iadd', {'rhs': BUF})
+    # contents of the counter's buffer when iadd is left (by return or by Overflow): used for FOR/NEXT
+    t.method('Integer', 'iadd', {'rhs': BUF}, exit_mode=True)
     t.method('Integer', 'isub', {'rhs': BUF})
     t.method('Integer', 'idiv_int', {'rhs': BUF})
     t.method('Integer', 'imod', {'rhs': BUF})
